@@ -12,7 +12,7 @@ CASE_TYPE = "case"
 MISMATCH_FN = "mismatch current_sites"
 VIOLATES_FN = "violates"
 RULE = ("cases = 1-3 consecutive blocks of 1-7 ops (eth tx with 0-4 logs / revert / ante failure / msg-server failure, "
-        "MsgCreateFunToken, MsgConvertCoinToEvm) delivered through BeginBlock/DeliverTx/EndBlock/Commit; "
+        "MsgCreateFunToken, MsgConvertCoinToEvm for coin-born and ERC20-born FunTokens, FunToken.sendToBank precompile calls whose logs include mirrored ABCI events) delivered through BeginBlock/DeliverTx/EndBlock/Commit; "
         "non-trivial = some block holds a FunToken op that emitted logs AND an Ethereum tx with logs after another "
         "log-emitting op (the shape in which indices can collide); distinct = distinct input")
 ASSUMPTIONS = [
@@ -22,6 +22,11 @@ ASSUMPTIONS = [
 
 
 def _out(op, ob):
+    if op["kind"] == "s2b":
+        # precompile call through an Ethereum tx: outcome and log count are read from the trace
+        if ob["code"] != 0:
+            return "FailMsg"
+        return "Ok" if ob["logs"] else "Revert"
     if op["kind"] == "eth":
         if op["fail"] == "nonce":
             return "FailAnte"
@@ -32,7 +37,7 @@ def _out(op, ob):
 
 
 def _kind(op, ob):
-    return {"eth": "Eth", "create": "Create", "convert": "ConvCoin"}[op["kind"]]
+    return {"eth": "Eth", "s2b": "Eth", "create": "Create", "convert": "ConvCoin", "conv20": "ConvErc20"}[op["kind"]]
 
 
 def _nat_list(xs):
@@ -61,9 +66,9 @@ def nontrivial(rec):
         eth_after = False
         for op, ob in zip(ops, bo["ops"]):
             n = len(ob["logs"])
-            if op["kind"] != "eth" and n > 0:
+            if op["kind"] not in ("eth", "s2b") and n > 0:
                 ft_with_logs = True
-            if op["kind"] == "eth" and n > 0 and seen_logs:
+            if op["kind"] in ("eth", "s2b") and n > 0 and seen_logs:
                 eth_after = True
             if n > 0:
                 seen_logs = True
@@ -171,7 +176,6 @@ MANIFEST = {
     },
     "level_note": ("Trusted: Coq kernel + vm_compute; the go/ast extractor harness/gen/c19.go (textual normal forms of 4 call "
                    "sites + 4 formulas); the Go driver's event parsing; log counts of ERC20 deploy/mint are taken from the "
-                   "trace. Not modelled: the geth interpreter, the ERC20 contracts, the convertCoinToEvmBornERC20 path is "
-                   "covered by the theorem and the generated facts but not driven by the harness."),
+                   "trace. Not modelled: the geth interpreter, the ERC20 contracts, all four call sites are driven by the harness."),
     "technique": "Coq proof (induction over op lists) over generated call-site facts + differential correspondence on ABCI traces",
 }
